@@ -1,4 +1,4 @@
-package verifharness
+package hx
 
 // Shared plumbing for all drivers: one PRNG, Coq-term emitters, the per-run sidecar
 // (histogram, samples, oracle hits) and a few helpers around the integration suite.
@@ -62,7 +62,7 @@ func (r *Rng) Fork(i uint64) *Rng { return NewRng(r.s ^ (i+1)*0xD6E8FEB86659FD93
 
 // ---------------------------------------------------------------- environment
 
-func envInt(name string, def int) int {
+func EnvInt(name string, def int) int {
 	if v := os.Getenv(name); v != "" {
 		if n, err := strconv.Atoi(v); err == nil {
 			return n
@@ -71,7 +71,7 @@ func envInt(name string, def int) int {
 	return def
 }
 
-func envSeed() uint64 {
+func EnvSeed() uint64 {
 	if v := os.Getenv("VERIF_SEED"); v != "" {
 		if n, err := strconv.ParseUint(v, 10, 64); err == nil {
 			return n
@@ -80,7 +80,7 @@ func envSeed() uint64 {
 	return 1
 }
 
-func outDir(t *testing.T) string {
+func OutDir(t *testing.T) string {
 	d := os.Getenv("VERIF_OUT")
 	if d == "" {
 		t.Skip("VERIF_OUT not set: drivers run only from /verif/check")
@@ -89,32 +89,32 @@ func outDir(t *testing.T) string {
 	return d
 }
 
-func thorough() bool { return os.Getenv("VERIF_TIER") == "thorough" }
+func Thorough() bool { return os.Getenv("VERIF_TIER") == "Thorough" }
 
 // ---------------------------------------------------------------- Coq term emitters
 
-func cqZ(z *big.Int) string {
+func CqZ(z *big.Int) string {
 	if z.Sign() < 0 {
 		return "(" + z.String() + ")%Z"
 	}
 	return z.String() + "%Z"
 }
-func cqZi(i int64) string  { return cqZ(big.NewInt(i)) }
-func cqZu(u uint64) string { return cqZ(new(big.Int).SetUint64(u)) }
-func cqN(u uint64) string  { return strconv.FormatUint(u, 10) + "%N" }
-func cqNat(n int) string   { return strconv.Itoa(n) + "%nat" }
-func cqBool(b bool) string {
+func CqZi(i int64) string  { return CqZ(big.NewInt(i)) }
+func CqZu(u uint64) string { return CqZ(new(big.Int).SetUint64(u)) }
+func CqN(u uint64) string  { return strconv.FormatUint(u, 10) + "%N" }
+func CqNat(n int) string   { return strconv.Itoa(n) + "%nat" }
+func CqBool(b bool) string {
 	if b {
 		return "true"
 	}
 	return "false"
 }
-func cqList(items []string) string { return "[" + strings.Join(items, "; ") + "]" }
-func cqOptZ(z *big.Int) string {
+func CqList(items []string) string { return "[" + strings.Join(items, "; ") + "]" }
+func CqOptZ(z *big.Int) string {
 	if z == nil {
 		return "None"
 	}
-	return "(Some " + cqZ(z) + ")"
+	return "(Some " + CqZ(z) + ")"
 }
 
 // CasesFile collects Coq terms of type `case` and writes sharded cases_<k>.v files.
@@ -238,23 +238,23 @@ func (s *Sidecar) Write(t *testing.T, dir string) {
 
 // ---------------------------------------------------------------- suite helper
 
-func newSuite(t *testing.T) *itu.ChainIntegrationTestSuite {
+func NewSuite(t *testing.T) *itu.ChainIntegrationTestSuite {
 	s := itu.CreateChainIntegrationTestSuiteFromChainConfig(t, require.New(t), itu.IntegrationTestChain1, true)
 	t.Cleanup(func() { s.Cleanup() })
 	return s
 }
 
-func pow2(n uint) *big.Int { return new(big.Int).Lsh(big.NewInt(1), n) }
-func bi(i int64) *big.Int  { return big.NewInt(i) }
-func bsub(a *big.Int, i int64) *big.Int {
+func Pow2(n uint) *big.Int { return new(big.Int).Lsh(big.NewInt(1), n) }
+func Bi(i int64) *big.Int  { return big.NewInt(i) }
+func Bsub(a *big.Int, i int64) *big.Int {
 	return new(big.Int).Sub(a, big.NewInt(i))
 }
-func badd(a *big.Int, i int64) *big.Int {
+func Badd(a *big.Int, i int64) *big.Int {
 	return new(big.Int).Add(a, big.NewInt(i))
 }
 
-// catchPanic runs f and reports the panic value, if any.
-func catchPanic(f func()) (p interface{}) {
+// CatchPanic runs f and reports the panic value, if any.
+func CatchPanic(f func()) (p interface{}) {
 	defer func() { p = recover() }()
 	f()
 	return nil
